@@ -282,7 +282,36 @@ def r20_7(ctx: Ctx) -> None:
     ctx.ok("R20.7", f"{d.qname}: negative max_length = unlimited (the reason for the floor)")
 
 
+def r20_8(ctx: Ctx) -> None:
+    """memory does not add up over the folders of an archive: a folder's decoder (for LZMA2: its dictionary, up to gigabytes as the archive
+    declares it) is cached on the folder object; the task that has worked a folder through lets it go (`<folder>.decompressor = None` in a
+    `finally` of Worker.extract_single), not only reset()/close().  And (b) packed input is read for a decode step only when ... see R20.9."""
+    f = ctx.prog.func("py7zr", "Worker.extract_single")
+    rel = [n for t in walk(f.node) if isinstance(t, ast.Try) for st in t.finalbody for n in ast.walk(st)
+           if isinstance(n, ast.Assign) and isinstance(n.targets[0], ast.Attribute) and n.targets[0].attr == "decompressor" and isinstance(n.value, ast.Constant) and n.value.value is None]
+    ctx.check(bool(rel), "R20.8", f, rel[0] if rel else f.node, "a folder's decoder is released when the folder has been worked through",
+              "Worker.extract_single leaves the decoder of every folder it has decoded cached on the folder until reset()/close(): with five folders of LZMA2 data and a 192 MiB "
+              "dictionary each (a 381 KiB archive) extraction and testzip() peak at 1.3 GiB - one such folder needs 570 MiB", construct="decoders kept per folder")
+
+
+def r20_9(ctx: Ctx) -> None:
+    """every decode step of SevenZipDecompressor.decompress fetches another block of packed input (up to 1 MiB) before it asks the chain for
+    output, whether or not the first stage still holds input it has not consumed.  In a solid folder each small member in front of a large,
+    hardly compressible one leaves a block inside the decoder: 1100 one-byte members cost 1.1 GiB.  Necessary condition: the `_read_data`
+    call stands under a test of the first stage's appetite (`needs_input`)."""
+    f = ctx.prog.func("compressor", "SevenZipDecompressor.decompress")
+    reads = [c for c in q.calls(f) if attr_tail(c) == "_read_data"]
+    ctx.floor("R20.9", len(reads), 1, "packed-input fetches in SevenZipDecompressor.decompress")
+    for c in reads:
+        ok = any("needs_input" in norm(cd) or "need_input" in norm(cd) for cd, pol in q.facts_at(f, c))
+        ctx.check(ok, "R20.9", f, c, "packed input is fetched only when the first stage wants input",
+                  "SevenZipDecompressor.decompress reads another block of packed input for every call, without asking whether the decoder still holds unconsumed input: in a solid "
+                  "folder every small member ahead of a large one parks up to 1 MiB inside the decoder (1100 one-byte members: 1.5 GiB peak)", construct="input fetched regardless of appetite")
+
+
 def run(ctx: Ctx) -> None:
+    r20_9(ctx)
+    r20_8(ctx)
     r20_5(ctx)
     r20_6(ctx)
     r20_7(ctx)
